@@ -45,6 +45,12 @@ theorem tie_syncchain_calls :
 /-- the refusal check and the `fromRound != 0` guard around the scan -/
 theorem tie_syncchain_guards : Gen.syncChainGuards = ["err!=nil", "last.Round<fromRound", "fromRound!=0"] := by decide
 
+/-- the model's `put` queues the beacon for every attached stream unconditionally (`Strm.onPut` appends to an unbounded
+list): that is `callbackStore.Put` only as long as its dispatch is a plain channel send — which waits for room in the
+job queue (C12's concern) but never skips a callback. A `select` with a `default` branch would drop the beacon for a
+stream whose queue is full, and `c11_live_fifo` would no longer speak about the code. -/
+theorem tie_dispatch_lossless : Gen.callbackPutDispatchBlocking = true ∧ Gen.callbackPutBaseFirst = true := by decide
+
 /-! ### the witnesses (replayed on the real SyncChain: corpus/C11/*.json) -/
 
 def tb (r : Nat) : Beacon := ⟨r, [UInt8.ofNat r], if r = 0 then [] else [UInt8.ofNat (r - 1)]⟩
